@@ -542,6 +542,46 @@ example : let r : List Rat × List Rat := ([-1, 1], [1 / 2, 1 / 2])
       quadSum r.2 r.1 (fun t => t ^ 2) = 1 := by
   refine ⟨by decide, ?_, ?_, ?_⟩ <;> decide +kernel
 
+/-- **Default handling of qnwnorm** (`if mu is None` / `if sig2 is None`): an omitted `mu` is the
+    zero vector, an omitted `sig2` is the identity, a size-1 `mu` is repeated `d` times — and the
+    nodes of the model are shifted by the *resolved* `mu` in every case, in particular when `sig2`
+    is omitted: with the identity factor the nodes are `Z + mu`. -/
+theorem qnwnorm_defaults (d : Nat) (hd : 2 ≤ d) (m : K) (mu : List K) (hmu : mu.length = d) :
+    resolveMu d (none : Option (List K)) = List.replicate d 0 ∧
+    resolveMu d (some [m]) = List.replicate d m ∧
+    resolveMu d (some mu) = mu ∧
+    (∀ i j, i < d → j < d →
+      ((resolveSig2 d (none : Option (List K))).getD i []).getD j 0 = if i = j then 1 else 0) := by
+  refine ⟨rfl, ?_, ?_, ?_⟩
+  · simp [resolveMu, broadcastTo]
+  · have : ¬ (mu.length = 1) := by omega
+    simp [resolveMu, broadcastTo, this]
+  · intro i j hi hj
+    simp [resolveSig2, List.getD_eq_getElem?_getD, hi, hj]
+
+/-- with an omitted `sig2` (identity factor) and a given `mu`, row `r` of the model's nodes is
+    `Z[r] + mu` componentwise: the requested mean is not dropped -/
+theorem qnwnorm_default_sig2_shift (mu z : List K) (hz : z.length = mu.length) (j : Nat) (hj : j < mu.length) :
+    (affineRow (resolveSig2 mu.length (none : Option (List K))) mu z).getD j 0 = z.getD j 0 + mu.getD j 0 := by
+  have hL : (resolveSig2 mu.length (none : Option (List K))).length = mu.length := by simp [resolveSig2]
+  rw [affineRow_getD _ mu z j hj (by rw [hL, hz]), hL]
+  congr 1
+  have : ∀ k ∈ range mu.length,
+      z.getD k 0 * ((resolveSig2 mu.length (none : Option (List K))).getD k []).getD j 0
+        = if k = j then z.getD j 0 else 0 := by
+    intro k hk
+    have hk' : k < mu.length := by simpa using hk
+    simp only [resolveSig2, List.getD_eq_getElem?_getD, List.getElem?_map, List.getElem?_range hk',
+      List.getElem?_range hj, Option.map_some, Option.getD_some]
+    by_cases h : k = j
+    · subst h; simp
+    · simp [h]
+  rw [Finset.sum_congr rfl this, Finset.sum_ite_eq' (range mu.length) j]
+  simp [hj]
+
+example : qnwnormNodes 2 (some [(3 : Rat) / 2]) (resolveSig2 2 none) [[-1, -1], [1, -1], [-1, 1], [1, 1]]
+    = [[1 / 2, 1 / 2], [5 / 2, 1 / 2], [1 / 2, 5 / 2], [5 / 2, 5 / 2]] := by decide +kernel
+
 /-- **qnwnorm_moments (d = 1)**: `nodes * s + mu` has mean `mu` and variance `s²`. -/
 theorem qnwnorm_moments_1d (w z : List K) (s mu : K) (hlen : w.length = z.length)
     (h0 : quadSum w z (fun _ => 1) = 1) (h1 : quadSum w z (fun t => t) = 0)
